@@ -217,6 +217,37 @@ func (q *c17Rend) shadowStmt(n, binder string) string {
 	panic("binder " + binder)
 }
 
+// the only true reference of the body to declaration j comes right after a scope that shadowed its name closed
+var c17UseAfter = []string{"useafter-block", "useafter-case", "useafter-default", "useafter-ifelse", "useafter-comm", "useafter-typecase", "useafter-for", "useafter-funclit"}
+
+func (q *c17Rend) useAfterStmt(j int, binder string) string {
+	n := q.g.Names[j]
+	occ := q.pick("_ = "+n, "println("+n+")", "_ = "+n+" + 1")
+	ref := q.stmtRef(j)
+	if strings.HasPrefix(ref, "return") {
+		ref = "_ = " + q.valueExpr(j)
+	}
+	switch binder {
+	case "useafter-block":
+		return "{ { " + n + " := 1; " + occ + " }; " + ref + " }"
+	case "useafter-case":
+		return "switch { case false: " + n + " := 1; " + occ + "; case true: " + ref + " }"
+	case "useafter-default":
+		return "switch 1 { case 2: var " + n + " int; " + occ + "; default: " + ref + " }"
+	case "useafter-ifelse":
+		return "if true { " + n + " := 1; " + occ + " } else { " + ref + " }"
+	case "useafter-comm":
+		return "select { case <-make(chan int): " + n + " := 1; " + occ + "; default: " + ref + " }"
+	case "useafter-typecase":
+		return "switch interface{}(1).(type) { case int: " + n + " := 1; " + occ + "; case string: " + ref + " }"
+	case "useafter-for":
+		return "{ for " + n + " := 0; " + n + " < 1; " + n + "++ { }; " + ref + " }"
+	case "useafter-funclit":
+		return "{ func(" + n + " int) { " + occ + " }(1); " + ref + " }"
+	}
+	panic("binder " + binder)
+}
+
 type c17Plan struct {
 	whole map[int]string // j -> param|result|recv|litparam|litresult : bound for the whole body
 	block map[int]string // j -> block-local binder
@@ -240,6 +271,8 @@ func (q *c17Rend) plan(i int, funcLike bool) c17Plan {
 				p.block[j] = c17BlockBinders[q.rng.Intn(len(c17BlockBinders))]
 				if q.rng.Intn(4) == 0 {
 					p.block[j] = "usebefore"
+				} else if q.g.Kinds[j] != 't' && q.rng.Intn(3) == 0 {
+					p.block[j] = c17UseAfter[q.rng.Intn(len(c17UseAfter))]
 				}
 			}
 			continue
@@ -261,9 +294,17 @@ func (q *c17Rend) plan(i int, funcLike bool) c17Plan {
 func (q *c17Rend) body(i int, refs []int, p c17Plan) []string {
 	var st []string
 	for _, j := range refs {
+		if strings.HasPrefix(p.block[j], "useafter-") {
+			// the statement built below holds the only reference
+			st = append(st, q.wrap(q.useAfterStmt(j, p.block[j]), q.rng.Intn(2)))
+			continue
+		}
 		st = append(st, q.wrap(q.stmtRef(j), q.rng.Intn(3)))
 	}
 	for j := range q.g.Kinds {
+		if strings.HasPrefix(p.block[j], "useafter-") {
+			continue
+		}
 		if _, ok := p.whole[j]; ok {
 			n := q.g.Names[j]
 			st = append(st, q.wrap(q.pick("_ = "+n, "println("+n+")", n+" = 2"), q.rng.Intn(3)))
